@@ -28,7 +28,7 @@ func c19Types() []mp {
 	}
 	for _, a := range []string{"1000", "40000000000000", "1000000000000000000000007"} {
 		for _, s := range []time.Duration{10 * time.Second, 4 * yearD} {
-			for _, m := range []string{"0.5", "1", "0.333333333333333333", "0.9"} {
+			for _, m := range []string{"0.5", "1", "0.333333333333333333", "0.9", "0", "0.000000000000000001"} {
 				out = append(out, mp{Kind: ref.ExpStep, Amount: a, Step: s, Mult: m})
 			}
 		}
